@@ -68,7 +68,8 @@ static void step(void) {
   else if (r < 55) { int i = free_slot(); if (i < 0) return; const char *names[] = {"Si", "Diamond", "AlphaQuartz", "nope", "", NULL}; const char *s = names[rndint(0, 5)]; int ua = live_of(K_ARRAY);
     Crystal_Struct *c = Crystal_GetCrystal(s, (ua >= 0 && rndint(0, 1)) ? objs[ua].p : NULL, useslot ? &e : NULL); ev("Crystal_GetCrystal", s ? s : "<NULL>", 0, useslot, c != NULL, c ? i : -1, K_CRYSTAL, 0, l0, e != NULL); if (c) { objs[i].p = c; objs[i].kind = K_CRYSTAL; } }
   else if (r < 58) { int a = live_of(K_CRYSTAL), i = free_slot(); if (i < 0) return; Crystal_Struct *c = Crystal_MakeCopy(a >= 0 ? objs[a].p : NULL, useslot ? &e : NULL); ev("Crystal_MakeCopy", "", a, useslot, c != NULL, c ? i : -1, K_CRYSTAL, 0, l0, e != NULL); if (c) { objs[i].p = c; objs[i].kind = K_CRYSTAL; } }
-  else if (r < 62) { int i = free_slot(); if (i < 0) return; int n = rndint(-1, 3); Crystal_Array *a = Crystal_ArrayInit(n, useslot ? &e : NULL); ev("Crystal_ArrayInit", "", n, useslot, a != NULL, a ? i : -1, K_ARRAY, n, l0, e != NULL); if (a) { objs[i].p = a; objs[i].kind = K_ARRAY; objs[i].n = n; } }
+  else if (r < 62) { int i = free_slot(); if (i < 0) return; int n = rndint(-1, 3); if (rndint(0, 11) == 0) n = rndint(0, 1) ? 2147483647 : (1 << 30);      /* a capacity no allocator can satisfy */
+    Crystal_Array *a = Crystal_ArrayInit(n, useslot ? &e : NULL); ev("Crystal_ArrayInit", "", n, useslot, a != NULL, a ? i : -1, K_ARRAY, n, l0, e != NULL); if (a) { objs[i].p = a; objs[i].kind = K_ARRAY; objs[i].n = n; } }
   else if (r < 68) { int a = live_of(K_ARRAY), c = live_of(K_CRYSTAL); if (a < 0) return; Crystal_Array *arr = objs[a].p; int had = arr->crystal != NULL;
     int rv = Crystal_AddCrystal(c >= 0 ? objs[c].p : NULL, arr, useslot ? &e : NULL); ev("Crystal_AddCrystal", c >= 0 ? ((Crystal_Struct *)objs[c].p)->name : "<NULL>", a, useslot, rv, a, K_ARRAY, had, l0, e != NULL); }
   else if (r < 74) { int a = live_of(K_ARRAY); if (a < 0) return; Crystal_Array *arr = objs[a].p; int had = arr->crystal != NULL; char path[300]; snprintf(path, sizeof path, "%s/xrl-c04-%d.dat", scratchdir, (int)getpid());
